@@ -48,6 +48,14 @@ def plan(ctx):
             qs.append(vf.Query('ops/%s/%s' % (c['name'], '+'.join(grp)), unit, h, unwind=N + 3, cbmc_defines=cd,
                                bounds={'N': N, 'K': K, 'expr': c['spec'], 'spec': low, 'outcomes': seen, 'variants': grp},
                                mem_gb=2, note='real %s over symbolic sub-rules vs PEG semantics' % c['cxx']))
+    # recursive and mutually recursive named rules (real recursion in the library, recursive reference in the harness)
+    rec = ctx.unit('c01_rec', cpp=os.path.join(vf.VERIF, 'harness', 'c01_rec.cpp'))
+    hrec = os.path.join(vf.VERIF, 'harness', 'c01_rec.c')
+    for kind, d in (('direct', {}), ('mutual', {'MUTUAL': 1})):
+        for v in ('a', 'n', 'p'):
+            qs.append(vf.Query('rec/%s/%s' % (kind, v), rec, hrec, defines=dict(d, SP_N=N), cbmc_defines={'VF_SPLIT': 1, 'V_' + v: 1}, unwind=N + 3, mem_gb=3,
+                               bounds={'N': N, 'grammar': 'R := ( s0 R s1 ) / s2' if kind == 'direct' else 'A := ( s0 B ) / s2 ; B := s1? A'},
+                               note='recursive named rules over symbolic sub-rules vs recursive PEG reference'))
     # atoms (and two small byte-level grammars) on symbolic bytes
     import leafgen
     NA = 4 if ctx.quick() else 6
